@@ -34,9 +34,228 @@ func c09Basic() []*scenario {
 	return out
 }
 
+/* ---------------------------------------------------------------- C09 families */
+
+func c09Connack() []*scenario {
+	var out []*scenario
+	for _, cfg := range []cfgT{cfgDefault, cfgPersist} {
+		tag := cfg.text()
+		for rc := byte(0); rc <= 5; rc++ {
+			for _, sp := range []bool{false, true} {
+				out = append(out, &scenario{name: fmt.Sprintf("connack/rc%d-sp%s-%s", rc, hx.B01(sp), tag),
+					steps: []step{sNew(cfg), sConnect(1, cfg), sConnack(sp, rc), sWaitFut(1), sIdle(), sPub(2, 1)}})
+			}
+		}
+		out = append(out,
+			&scenario{name: "connack/not-first-" + tag, steps: []step{sNew(cfg), sConnect(1, cfg), sB(&packet.Puback{ID: 1}), sWaitFut(1), sIdle()}},
+			&scenario{name: "connack/drop-before-" + tag, steps: []step{sNew(cfg), sConnect(1, cfg), sDrop(), sWaitFut(1), sIdle()}},
+			&scenario{name: "connack/close-while-connecting-" + tag, steps: []step{sNew(cfg), sConnect(1, cfg), sIdle(), sClose(2), sWaitFut(1)}},
+			&scenario{name: "connack/twice-" + tag, steps: cat(opening(cfg, 1, false), []step{sConnack(false, 0), sIdle(), sConnack(true, 2), sIdle(), sPub(2, 1), sB(&packet.Puback{ID: 1}), sWaitFut(2)})},
+			&scenario{name: "connack/connect-twice-" + tag, steps: cat(opening(cfg, 1, false), []step{sConnect(2, cfg), sPub(3, 0)})},
+			&scenario{name: "connack/api-before-connect-" + tag, steps: []step{sNew(cfg), sPub(1, 1), sSub(2, 0), sUns(3), sDisc(4, false), sClose(5), sConnect(6, cfg), sConnack(false, 0), sWaitFut(6)}},
+			&scenario{name: "connack/api-while-connecting-" + tag, steps: []step{sNew(cfg), sConnect(1, cfg), sIdle(), sPub(2, 1), sDisc(3, false), sConnack(false, 0), sWaitFut(1), sIdle()}},
+		)
+	}
+	return out
+}
+
+// requests and broker reactions, enumerated
+type reqT struct {
+	kind string
+	q    byte
+}
+
+func reqSteps(rs []reqT, first int) []step {
+	var out []step
+	for i, r := range rs {
+		switch r.kind {
+		case "pub":
+			out = append(out, sPub(first+i, r.q))
+		case "sub":
+			out = append(out, sSub(first+i, r.q))
+		case "uns":
+			out = append(out, sUns(first+i))
+		}
+	}
+	return out
+}
+
+// the broker alphabet for a list of requests with ids 1..n
+func brokerAlphabet(n int) []step {
+	var al []step
+	for id := 1; id <= n; id++ {
+		i := packet.ID(id)
+		al = append(al, sB(&packet.Puback{ID: i}), sB(&packet.Pubrec{ID: i}), sB(&packet.Pubcomp{ID: i}),
+			sB(&packet.Suback{ID: i, ReturnCodes: []packet.QOS{1}}), sB(&packet.Unsuback{ID: i}))
+	}
+	al = append(al, sB(&packet.Puback{ID: 9}), sB(&packet.Suback{ID: 1, ReturnCodes: []packet.QOS{0x80}}), sB(&packet.Pingresp{}), sDrop())
+	return al
+}
+
+func c09Acks(c *hx.Ctx) []*scenario {
+	var out []*scenario
+	reqs := [][]reqT{{{"pub", 1}}, {{"pub", 2}}, {{"sub", 1}}, {{"uns", 0}}, {{"pub", 1}, {"pub", 2}}, {{"pub", 2}, {"sub", 0}}, {{"sub", 1}, {"uns", 0}}, {{"pub", 0}, {"pub", 1}}}
+	if c.Thorough() {
+		reqs = append(reqs, []reqT{{"pub", 1}, {"sub", 1}, {"pub", 2}}, []reqT{{"pub", 2}, {"pub", 2}, {"uns", 0}})
+	}
+	depth := 2
+	cfgs := []cfgT{cfgDefault, cfgPersist}
+	for ci, cfg := range cfgs {
+		for ri, rs := range reqs {
+			nids := 0
+			for _, r := range rs {
+				if !(r.kind == "pub" && r.q == 0) {
+					nids++
+				}
+			}
+			al := brokerAlphabet(nids)
+			var rec func(prefix []step, d int)
+			rec = func(prefix []step, d int) {
+				if len(prefix) > 0 {
+					// quick tier: all of depth 1, a seeded third of depth 2; thorough: everything up to depth 3
+					take := c.Thorough() || len(prefix) < 4 || c.Rng.Intn(3) == 0
+					if take {
+						name := fmt.Sprintf("acks/c%d-r%d", ci, ri)
+						for _, s := range prefix {
+							if s.op != "idle" {
+								name += "-" + s.text()
+							}
+						}
+						out = append(out, &scenario{name: name, steps: cat(opening(cfg, 1, false), reqSteps(rs, 2), prefix)})
+					}
+				}
+				if d == 0 {
+					return
+				}
+				for _, a := range al {
+					rec(append(append([]step(nil), prefix...), a, sIdle()), d-1)
+				}
+			}
+			dd := depth
+			if c.Thorough() && len(rs) <= 2 {
+				dd = 3
+			}
+			rec(nil, dd)
+		}
+	}
+	return out
+}
+
+// one injected failure per Conn/Session/Callback operation index over rich scripts
+func c09Faults(c *hx.Ctx) []*scenario {
+	var out []*scenario
+	type base struct {
+		name  string
+		cfg   cfgT
+		steps func(cfg cfgT) []step
+	}
+	rich := func(cfg cfgT) []step {
+		return cat(opening(cfg, 1, false), []step{
+			sPub(2, 1), sPub(3, 2), sB(&packet.Pubrec{ID: 2}), sIdle(), sSub(4, 1), sPub(5, 0),
+			sB(&packet.Puback{ID: 1}), sIdle(), sB(inPub(7, 2, false)), sIdle(), sB(&packet.Pubrel{ID: 7}), sIdle(),
+			sB(&packet.Suback{ID: 3, ReturnCodes: []packet.QOS{1}}), sIdle(), sB(&packet.Pubcomp{ID: 2}), sIdle(),
+			sUns(6), sB(&packet.Unsuback{ID: 4}), sIdle(), sDisc(7, false)})
+	}
+	resume := func(cfg cfgT) []step {
+		return cat(opening(cfg, 1, false), []step{
+			sPub(2, 1), sPub(3, 2), sB(&packet.Pubrec{ID: 2}), sIdle(), sPub(4, 1), sDrop(), sIdle()},
+			opening(cfg, 5, true), []step{sB(&packet.Puback{ID: 1}), sIdle(), sB(&packet.Pubcomp{ID: 2}), sIdle(), sClose(6)})
+	}
+	bases := []base{{"rich-clean", cfgDefault, rich}, {"rich-persist", cfgPersist, rich}, {"resume", cfgPersist, resume}}
+	limits := map[string]int{"dial": 2, "send": 12, "send+": 12, "recv": 9, "close": 2, "save": 6, "lookup": 1, "delete": 6, "all": 2, "reset": 3, "cb": 1, "nextid": 0}
+	for _, b := range bases {
+		for _, kind := range []string{"dial", "send", "send+", "recv", "close", "save", "lookup", "delete", "all", "reset", "cb"} {
+			for k := 1; k <= limits[kind]; k++ {
+				for _, asyncOk := range []bool{false, true} {
+					if asyncOk && !(kind == "recv" || kind == "send") {
+						continue
+					}
+					out = append(out, &scenario{name: fmt.Sprintf("fault/%s-%s@%d-a%s", b.name, kind, k, hx.B01(asyncOk)),
+						failAt: map[string]int{kind: k}, asyncOk: asyncOk, steps: b.steps(b.cfg)})
+				}
+			}
+		}
+	}
+	return out
+}
+
+// session reuse across reconnects: what is stored is retransmitted, in order, DUP on publishes
+func c09Resume(c *hx.Ctx) []*scenario {
+	var out []*scenario
+	cfg := cfgPersist
+	first := cat(opening(cfg, 1, false), []step{sPub(2, 1), sPub(3, 2), sB(&packet.Pubrec{ID: 2}), sIdle(), sPub(4, 2), sSub(5, 1), sDrop(), sIdle()})
+	out = append(out,
+		&scenario{name: "resume/acked-after", steps: cat(first, opening(cfg, 6, true),
+			[]step{sB(&packet.Puback{ID: 1}), sIdle(), sB(&packet.Pubcomp{ID: 2}), sIdle(), sB(&packet.Pubrec{ID: 3}), sIdle(), sB(&packet.Pubcomp{ID: 3}), sIdle(), sPub(7, 1), sB(&packet.Puback{ID: 5}), sWaitFut(7), sDisc(8, false)})},
+		&scenario{name: "resume/three-times", steps: cat(first, opening(cfg, 6, true), []step{sDrop(), sIdle()}, opening(cfg, 7, true),
+			[]step{sB(&packet.Puback{ID: 1}), sIdle(), sDrop(), sIdle()}, opening(cfg, 8, true), []step{sDisc(9, false)})},
+		&scenario{name: "resume/clean-second", steps: cat(first, opening(cfgDefault, 6, false), []step{sPub(7, 1), sB(&packet.Puback{ID: 1}), sWaitFut(7), sDisc(8, false)})},
+		&scenario{name: "resume/denied-second", steps: cat(first, []step{sNew(cfg), sConnect(6, cfg), sConnack(false, 5), sWaitFut(6), sIdle()}, opening(cfg, 7, true), []step{sDisc(8, false)})},
+	)
+	for k := 2; k <= 5; k++ {
+		out = append(out, &scenario{name: fmt.Sprintf("resume/resend-fails@%d", k), failAt: map[string]int{"send": 7 + k},
+			steps: cat(first, opening(cfg, 6, true), []step{sIdle()}, opening(cfg, 7, true), []step{sDisc(8, false)})})
+	}
+	return out
+}
+
+// API calls from several goroutines at once, a well-behaved broker answering
+func c09Concurrent(c *hx.Ctx) []*scenario {
+	var out []*scenario
+	rounds := 6
+	if c.Thorough() {
+		rounds = 60
+	}
+	for i := 0; i < rounds; i++ {
+		for ci, cfg := range []cfgT{cfgDefault, cfgPersist} {
+			out = append(out,
+				&scenario{name: fmt.Sprintf("conc/three-%d-%d", ci, i), steps: cat(opening(cfg, 1, false),
+					[]step{sAuto(4), sAsync(sPub(2, 1)), sAsync(sSub(3, 1)), sAsync(sPub(4, 2)), sAsync(sPub(5, 0)),
+						sWaitRet(2), sWaitRet(3), sWaitRet(4), sWaitRet(5), sWaitFut(2), sWaitFut(3), sWaitFut(4), sWaitFut(5), sDisc(6, true)})},
+				&scenario{name: fmt.Sprintf("conc/close-race-%d-%d", ci, i), steps: cat(opening(cfg, 1, false),
+					[]step{sAuto(2), sAsync(sPub(2, 1)), sAsync(sPub(3, 1)), sAsync(sClose(4)), sAsync(sUns(5)),
+						sWaitRet(2), sWaitRet(3), sWaitRet(4), sWaitRet(5)})},
+				&scenario{name: fmt.Sprintf("conc/drop-race-%d-%d", ci, i), steps: cat(opening(cfg, 1, false),
+					[]step{sAsync(sPub(2, 1)), sDrop(), sAsync(sSub(3, 1)), sAsync(sDisc(4, false)), sWaitRet(2), sWaitRet(3), sWaitRet(4)})},
+			)
+		}
+	}
+	return out
+}
+
+// the schedules of repaired defects, replayed by gating: they must pass now
+func c09Regress(c *hx.Ctx) []*scenario {
+	var out []*scenario
+	for ci, cfg := range []cfgT{cfgPersist, cfgDefault} {
+		for _, at := range []string{"nextid", "save", "send"} {
+			k := map[string]int{"nextid": 2, "save": 2, "send": 3}[at]
+			for _, asyncOk := range []bool{true, false} {
+				// D13: a Publish is paused inside the call, the connection drops and the processor tears
+				// the client down, then the Publish continues
+				out = append(out, &scenario{name: fmt.Sprintf("regress/D13-%s-c%d-a%s", at, ci, hx.B01(asyncOk)), asyncOk: asyncOk,
+					gates: []gateSpec{{kind: at, k: k, name: "g"}},
+					steps: cat(opening(cfg, 1, false), []step{sPub(2, 1), sAsync(sPub(3, 1)), sWaitGate("g"), sDrop(), sIdle(), sWaitFut(2), sRelease("g"), sWaitRet(3)})})
+			}
+		}
+		// D8: CONNECT cannot be sent, then Close must return
+		out = append(out,
+			&scenario{name: fmt.Sprintf("regress/D8-send-c%d", ci), failAt: map[string]int{"send": 1}, steps: []step{sNew(cfg), sConnect(1, cfg), sClose(2), sClose(3)}},
+			&scenario{name: fmt.Sprintf("regress/D8-dial-c%d", ci), failAt: map[string]int{"dial": 1}, steps: []step{sNew(cfg), sConnect(1, cfg), sClose(2), sConnect(3, cfg), sConnack(false, 0), sWaitFut(3)}},
+		)
+	}
+	out = append(out, &scenario{name: "regress/D8-reset", failAt: map[string]int{"reset": 1}, steps: []step{sNew(cfgDefault), sConnect(1, cfgDefault), sClose(2)}})
+	return out
+}
+
 func c09Scenarios(c *hx.Ctx) []*scenario {
 	var out []*scenario
 	out = append(out, c09Basic()...)
+	out = append(out, c09Regress(c)...)
+	out = append(out, c09Connack()...)
+	out = append(out, c09Resume(c)...)
+	out = append(out, c09Faults(c)...)
+	out = append(out, c09Concurrent(c)...)
+	out = append(out, c09Acks(c)...)
 	return out
 }
 
